@@ -1,7 +1,6 @@
 package lab
 
 import (
-	"errors"
 	"bytes"
 	"context"
 	"crypto"
@@ -12,6 +11,7 @@ import (
 	"crypto/x509"
 	"crypto/x509/pkix"
 	"encoding/hex"
+	"errors"
 	"fmt"
 	"hash"
 	"io"
@@ -57,13 +57,13 @@ type NamedModule struct {
 type World struct {
 	// WrapHmac, if set, is given to every device made by NewDevice
 	WrapHmac func(hash.Hash) hash.Hash
-	State   Backend
-	Mem     *MemState // nil when another backend is used
-	DIS     *fdo.DIServer[custom.DeviceMfgInfo]
-	TO0S    *fdo.TO0Server
-	TO1S    *fdo.TO1Server
-	TO2S    *fdo.TO2Server
-	Handler *fdohttp.Handler
+	State    Backend
+	Mem      *MemState // nil when another backend is used
+	DIS      *fdo.DIServer[custom.DeviceMfgInfo]
+	TO0S     *fdo.TO0Server
+	TO1S     *fdo.TO1Server
+	TO2S     *fdo.TO2Server
+	Handler  *fdohttp.Handler
 
 	Reuse     bool
 	Modules   OwnerModules
